@@ -305,14 +305,14 @@ def nodeAt {ρ : Type} (roots : List (SNode ρ)) (p : Path) : Option (SNode ρ) 
   | some r => follow r p.segs
   | Option.none => Option.none
 
-/-- the value of the id attribute of a node (first attribute flagged iD), if it has one and it is set to a string -/
+/-- the text of the id attribute of a node (first attribute flagged iD), if it has one and it holds a value other than
+    its default (a default is not written in the document, so it could not be looked up after load) -/
 def idValue {ρ : Type} (mm : MMX) (n : SNode ρ) : Option Str :=
   match (mm.feats n.cls).find? fun fi => fi.isId && fi.kind = .attr with
   | Option.none => Option.none
   | some fi => match n.slots.lookup fi.name with
-    | some (.attr1 v) => some (mm.idText v)
-    | some _ => Option.none
-    | Option.none => fi.dflt.map mm.idText
+    | some (.attr1 v) => if veq fi v then Option.none else some (mm.idText v)
+    | _ => Option.none
 
 /-- `Resource._is_reference_token` -/
 def isTok (ws : Char → Bool) (s : Str) : Bool :=
